@@ -29,11 +29,11 @@ type Failure struct {
 	Shape    string `json:"shape"`
 	Depth    int    `json:"depth"`
 	Source   string `json:"source,omitempty"`
-	Prelude  string `json:"prelude,omitempty"`
 	Impl     string `json:"implementation"`
 	Expected string `json:"expected"`
 	Note     string `json:"note,omitempty"`
 	Size     int    `json:"size"`
+	Prelude  string `json:"prelude,omitempty"`
 }
 
 type hw [4]int // data, scope, addr, loop
@@ -114,7 +114,7 @@ func (h *Harness) shape(sh Shape, small []int, deep []int, twinDeep int, modelDe
 		tw := h.eval(Twin(p).Source(r.Style{}), budgetFor(d))
 		h.counts["twin-comparisons"]++
 		if !r.SameObs(obs, tw) {
-			h.fail(Failure{"twin", name, d, src, obs, tw, "the function rendered with ((begin f) ..) for the self call (never a jump) gives another observable", size + d})
+			h.fail(Failure{"twin", name, d, src, obs, tw, "the function rendered with ((begin f) ..) for the self call (never a jump) gives another observable", size + d, ""})
 		}
 		if d == 10 {
 			obs10, hw10, have10 = obs, m, true
@@ -134,15 +134,15 @@ func (h *Harness) shape(sh Shape, small []int, deep []int, twinDeep int, modelDe
 				true, "ctx-nest:"+fmt.Sprint(len(sh.Ctx)), "pre:"+sh.Pre, "base:"+sh.Base, fmt.Sprintf("depth:%d", d))
 		}
 		if obs == "BUDGET" || strings.HasPrefix(obs, "PANIC") {
-			h.fail(Failure{"deep-incomplete", name, d, src, obs, scale(obs10, 10, d), "deep tail recursion did not complete", size + 20})
+			h.fail(Failure{"deep-incomplete", name, d, src, obs, scale(obs10, 10, d), "deep tail recursion did not complete", size + 20, ""})
 			continue
 		}
 		if want := scale(obs10, 10, d); obs != want {
-			h.fail(Failure{"deep-value", name, d, src, obs, want, "observable at this depth differs from the depth-10 observable with the traced sum replaced by D(D+1)/2", size + 20})
+			h.fail(Failure{"deep-value", name, d, src, obs, want, "observable at this depth differs from the depth-10 observable with the traced sum replaced by D(D+1)/2", size + 20, ""})
 		}
 		if m != hw10 {
 			h.fail(Failure{"space", name, d, src, "high-water marks data,scope,addr,loop = " + m.String(), "as at depth 10 = " + hw10.String(),
-				"the stacks grow with the recursion depth", size + 20})
+				"the stacks grow with the recursion depth", size + 20, ""})
 		}
 		h.counts["space-comparisons"]++
 		if twinDeep > 0 && d == deep[0] {
@@ -151,7 +151,7 @@ func (h *Harness) shape(sh Shape, small []int, deep []int, twinDeep int, modelDe
 			o2 := h.eval(Twin(pt).Source(r.Style{}), budgetFor(twinDeep)*3)
 			h.counts["twin-comparisons"]++
 			if !r.SameObs(o1, o2) {
-				h.fail(Failure{"twin", name, twinDeep, pt.Source(r.Style{}), o1, o2, "twin differs", size + 15})
+				h.fail(Failure{"twin", name, twinDeep, pt.Source(r.Style{}), o1, o2, "twin differs", size + 15, ""})
 			}
 		}
 	}
@@ -170,7 +170,7 @@ func (h *Harness) templates(depths []int) {
 			}
 			h.out.Dist[tag]++
 			if strings.HasPrefix(o1, "PANIC") || !r.SameObs(o1, o2) {
-				h.fail(Failure{"template", t.Name, d, src, o1, o2, "the same function with the self call written ((begin f) ..) gives another observable", 5 + d})
+				h.fail(Failure{"template", t.Name, d, src, o1, o2, "the same function with the self call written ((begin f) ..) gives another observable", 5 + d, ""})
 			}
 			if d == 3 {
 				h.info["template "+t.Name] = o1
@@ -188,7 +188,7 @@ func (h *Harness) sanity() {
 	h.info["twin_hwm_depth10"] = a.String()
 	h.info["twin_hwm_depth60"] = b.String()
 	if !(b[1] > a[1] && b[2] > a[2]) {
-		h.fail(Failure{"probe-blind", sh.String(), 60, "", b.String(), "> " + a.String(), "the non-optimised twin shows no stack growth: the space probe is blind", 1000})
+		h.fail(Failure{"probe-blind", sh.String(), 60, "", b.String(), "> " + a.String(), "the non-optimised twin shows no stack growth: the space probe is blind", 1000, ""})
 	}
 	mut := func(d int) string {
 		return fmt.Sprintf("(defn ev [n] (cond (== n 0) true (od (- n 1)))) (defn od [n] (cond (== n 0) false (ev (- n 1)))) (ev %d)", d)
@@ -202,6 +202,12 @@ func (h *Harness) sanity() {
 	_, a = h.measure(alias(10), budgetFor(10))
 	_, b = h.measure(alias(60), budgetFor(60))
 	h.info["alias_tail_calls_grow"] = b[2] > a[2]
+	deffn := func(d int) string {
+		return fmt.Sprintf("(def g (fn [n] (cond (== n 0) 7 (g (- n 1))))) (g %d)", d)
+	}
+	_, a = h.measure(deffn(10), budgetFor(10))
+	_, b = h.measure(deffn(60), budgetFor(60))
+	h.info["def_of_anonymous_fn_tail_calls_grow"] = b[2] > a[2]
 }
 
 // shadow programs: the function's own name is rebound (finding tco-by-name); they go to the model,
@@ -341,6 +347,7 @@ func main() {
 	}
 	h.macros(mdeep)
 	h.histories(hshapes, hdeep)
+	h.places(mdeep)
 	if !thorough && len(h.failures) == 0 {
 		// one very deep run of each family in the quick tier
 		m := MacroShapes[rng.Intn(len(MacroShapes))]
